@@ -118,6 +118,38 @@ def run(tier, seed):
         if bad:
             V.mismatch(dict(case, problem="bucket content differs from the regrouped flat result", buckets=bad,
                             expected={x: exp[x] for x in bad}, observed={x: grp[x] for x in bad}))
+    # ---- scripts outside the generator's kinds: whatever the flat list holds must be in exactly one bucket, unchanged, in order -------
+    specials = ["DROP TABLE d1;\nCREATE TABLE t1 (a int);\nDROP TABLE s1.d2;\n",
+                "CREATE SCHEMA IF NOT EXISTS audit;\nCREATE SCHEMA IF NOT EXISTS audit;\nCREATE SEQUENCE s1 START 1;\nCREATE SEQUENCE s1 START 1;\n",
+                "CREATE DATABASE db1;\nCREATE TABLESPACE ts1;\nCREATE DATABASE db1;\nCREATE TYPE ty AS ENUM ('a');\nCREATE TYPE ty AS ENUM ('a');\n",
+                "CREATE TABLE t1 (a int);\nCREATE TABLE t1 (a int);\nSET x = 1;\nSET x = 1;\n-- c\n",
+                "", "\n", "GO\nUSE db;\n", "-- only comment\n"]
+    st = []
+    for sp_ in specials:
+        for m in modes:
+            st.append((sp_, {}, {"output_mode": m}))
+            st.append((sp_, {}, {"output_mode": m, "group_by_type": True}))
+    so, _ = C.parse_many(st)
+    for k2 in range(0, len(st), 2):
+        flat, grp = so[k2], so[k2 + 1]
+        case = {"ddl": st[k2][0], "mode": st[k2][2]["output_mode"]}
+        if flat[0] != "ok" or grp[0] != "ok":
+            V.mismatch(dict(case, problem="run raised", flat=flat[:3], grouped=grp[:3]))
+            continue
+        ncmp += 1
+        if not isinstance(grp[1], dict) or any(b not in grp[1] for b in ("tables", "types", "sequences", "domains", "schemas", "ddl_properties")):
+            V.mismatch(dict(case, problem="grouped result lacks an always-present bucket", observed=grp[1] if not isinstance(grp[1], dict) else sorted(grp[1])))
+            continue
+        ents = [e for e in flat[1] if "comments" not in e]
+        regrouped = [e for b, v in grp[1].items() if b != "comments" for e in v]
+        if sorted(json.dumps(e, sort_keys=True) for e in ents) != sorted(json.dumps(e, sort_keys=True) for e in regrouped):
+            V.mismatch(dict(case, problem="the buckets do not hold exactly the entities of the flat list", flat=ents, grouped=grp[1]))
+            continue
+        for b, v in grp[1].items():
+            if b != "comments":
+                idx = [ents.index(e) for e in v]
+                if [json.dumps(e, sort_keys=True) for e in v] != [json.dumps(e, sort_keys=True) for e in ents if e in v] or any(R.project_entity(e)["kind"].startswith("?") for e in v):
+                    V.mismatch(dict(case, problem="bucket order differs from the flat order / entity of unknown kind", bucket=b))
     rc = V.finish()
     smp = meta[len(meta) // 2]
     cov.update({"states": states, "transitions": trans, "traces_validated_against_impl": ncmp, "distinct_real_parses": nuniq,
